@@ -31,6 +31,10 @@ D2R = sp.pi / 180
 
 
 MUTANTS = [
+    ("sign of the parsed angle read from the unsplit string",
+     "AegeanTools/angle_tools.py",
+     "    if d[0].startswith('-') or float(d[0]) < 0:",
+     "    if dec.startswith('-') or float(d[0]) < 0:", "C17-R5"),
     ("seconds printed in the wrong unit", "AegeanTools/angle_tools.py",
      "    return '{0}{1:02d}:{2:02d}:{3:05.2f}'.format(sign, d, m, s / 100.0)",
      "    return '{0}{1:02d}:{2:02d}:{3:05.2f}'.format(sign, d, m, s / 10.0)",
@@ -712,6 +716,31 @@ def sexagesimal(ctx, prog, mod, R4="C17-R4", R5="C17-R5"):
     ctx.check(R5, d2d, "sign of '-00:..' taken from the string", neg,
               "float('-00') is 0.0 and loses the sign: the leading '-' must "
               "be tested on the string", node=d2d.node)
+    # ... on the FIRST FIELD of the split string (or on the stripped
+    # string): the fields are separated by any white space, so the raw
+    # argument may start with blanks (' -00 30 00', a right-justified
+    # column) and its own startswith('-') is False
+    from .c08 import _resolve_local as _rl17
+    for c in ast.walk(d2d.node):
+        if isinstance(c, ast.Call) and isinstance(c.func, ast.Attribute) \
+                and c.func.attr == "startswith" and c.args and \
+                isinstance(c.args[0], ast.Constant) and \
+                c.args[0].value == "-":
+            recv = c.func.value
+            if isinstance(recv, ast.Name):
+                recv = _rl17(d2d.node, recv)
+            field = isinstance(recv, ast.Subscript) and \
+                isinstance(recv.slice, ast.Constant) and \
+                recv.slice.value == 0
+            stripped = isinstance(recv, ast.Call) and \
+                isinstance(recv.func, ast.Attribute) and \
+                recv.func.attr in ("strip", "lstrip")
+            ctx.check(R5, d2d, "sign read from the first field: " +
+                      norm(c, 50), field or stripped,
+                      "`%s` looks at the unsplit argument: with leading "
+                      "white space (which the parser otherwise accepts) a "
+                      "negative angle between -1 and 0 degrees parses as "
+                      "positive" % norm(c, 50), node=c)
     # the arithmetic of the parser: D +- (M/60 + S/3600), minus exactly on
     # the branch taken for a leading '-' (or a negative degrees field)
     from ..core import expand_locals
